@@ -189,6 +189,7 @@ func init() {
 				{K: "start", I: 0}, {K: "do", I: 1}, {K: "resp", I: 0}, {K: "resp", I: 1},
 				{K: "tick", Arg: 1}, {K: "failwrite"}, {K: "failwrite", Arg: 1}, {K: "readerr", Arg: 1}, {K: "readerr", Arg: 2}, {K: "readerr", Arg: 3}, {K: "close"},
 				{K: "garbage", Arg: 4}, // the first part of a message (a header that announces more than has arrived)
+				{K: "unknown"},         // a datagram for the fallback handler
 			}
 			optSets := []cliOpts{
 				{}, {NoConnClose: true}, {Fallback: true}, {NoRetransmit: true}, {ConnCloseErr: true}, {AgentCloseErr: true},
@@ -196,6 +197,7 @@ func init() {
 				{Reentrant: true}, {Reentrant: true, NoRetransmit: true},
 				{ConnCloseErr: true, AgentCloseErr: true, SentinelErrs: true}, {AgentCloseErr: true, SentinelErrs: true, NoConnClose: true},
 				{ConnCloseErr: true, CloseTimeout: true}, {ConnCloseErr: true, CloseTimeout: true, AgentCloseErr: true, NoRetransmit: true},
+				{Fallback: true, Reentrant: true},
 			}
 			for i, o := range optSets {
 				d := depth
@@ -208,7 +210,7 @@ func init() {
 			tickAfter := cliEv{K: "tick", Arg: 1}
 			cl := cliEv{K: "close"}
 			n := 0
-			for _, o := range []cliOpts{{}, {NoConnClose: true}, {ConnCloseErr: true, AgentCloseErr: true}, {Fallback: true, NoConnClose: true}, {Reentrant: true}} {
+			for _, o := range []cliOpts{{}, {NoConnClose: true}, {ConnCloseErr: true, AgentCloseErr: true}, {Fallback: true, NoConnClose: true}, {Reentrant: true}, {Fallback: true, Reentrant: true}} {
 				for _, sc := range []cliScenario{
 					{Threads: [][]cliEv{nil, {cl}, {cl}}},
 					{Threads: [][]cliEv{nil, {cl}, {cl}, {cl}}},
@@ -217,6 +219,8 @@ func init() {
 					{Threads: [][]cliEv{nil, {cl}, {ev("do", 0)}, {ev("resp", 0)}}},
 					{Threads: [][]cliEv{nil, {cl}, {ev("indicate", 0)}, {{K: "setrto", Arg: 5}}}},
 					{Setup: []cliEv{ev("start", 0)}, Threads: [][]cliEv{nil, {cl}, {ev("resp", 0)}}},
+					{Threads: [][]cliEv{nil, {cl}, {{K: "unknown"}}}},
+					{Threads: [][]cliEv{nil, {cl}, {{K: "unknown"}}, {ev("indicate", 0)}}},
 					{Setup: []cliEv{ev("start", 0)}, Threads: [][]cliEv{nil, {cl}, {tickAfter}}},
 					{Setup: []cliEv{ev("start", 0), ev("start", 1)}, Threads: [][]cliEv{nil, {cl}, {tickAfter}, {ev("resp", 1)}}},
 					{Setup: []cliEv{ev("start", 0)}, Threads: [][]cliEv{nil, {cl}, {ev("do", 1)}}},
